@@ -405,7 +405,14 @@ def _declared_table(prog):
     IDX, RAW, SCALERS = ("param", ps[0]), ("param", ps[1]), ("param", ps[2])
 
     def classify(leaf):
-        if leaf[0] == "call" and str(leaf[1]).endswith("dtype") and leaf[2] and leaf[2][0][0] == "const":
+        if leaf[0] == "call" and leaf[1] == fi.qual:
+            # the recursion: on the scale's own input source -> the input's type; on the raw-data marker -> the raw type
+            a0 = leaf[2][0] if leaf[2] else None
+            raw_marker = prog.try_fold(ast.Name(id="RAW_DATA_INPUT_SOURCE", ctx=ast.Load()), fi.module, default=0xFFFFFFFF)
+            if a0 is not None and a0 == ("const", raw_marker):
+                return "raw"
+            return "input"
+        if leaf[0] == "call" and str(leaf[1]).split(".")[-1] == "dtype" and leaf[2] and leaf[2][0][0] == "const":
             return ("const", leaf[2][0][1])
         if leaf[0] == "call" and str(leaf[1]).endswith("result_type"):
             return "result_type"
